@@ -60,9 +60,24 @@ func blockingSites(fn *ssa.Function) []BSite {
 		case *ssa.Select:
 			if x.Blocking {
 				out = append(out, BSite{fn, in, "select", "blocking select"})
+			} else if inLoop(in) {
+				// a polling loop: a non-blocking receive repeated in a loop
+				for _, st := range x.States {
+					if st.Dir == types.RecvOnly {
+						out = append(out, BSite{fn, in, "poll", "non-blocking receive in a loop"})
+						break
+					}
+				}
 			}
 		case ssa.CallInstruction:
 			if _, isDefer := in.(*ssa.Defer); isDefer {
+				// a deferred blocking call blocks when the function returns
+				cc := x.Common()
+				if sc := staticCallee(cc); sc != nil {
+					if d, ok := blockingCalls[sc.String()]; ok && (strings.Contains(sc.String(), "WaitGroup") || strings.Contains(sc.String(), "errgroup")) {
+						out = append(out, BSite{fn, in, "call", "deferred " + sc.String() + ": " + d})
+					}
+				}
 				return
 			}
 			cc := x.Common()
